@@ -424,6 +424,10 @@ func mkLen(x *Val) *Val {
 		}
 	case "arraylit":
 		return mkInt(int64(len(x.Args)))
+	case "wire":
+		if len(x.Args) == 1 && x.Args[0] != nil { // bytes delivered by a successful read: exactly the requested length
+			return x.Args[0]
+		}
 	case "collect":
 		return x.Args[2]
 	}
@@ -575,6 +579,15 @@ func affOf(v *Val) *Affine {
 // preserves every value of `from` (64-bit int assumed).
 func wideningInt(from, to types.Type) bool {
 	if from == nil || to == nil {
+		return false
+	}
+	if _, isTP := from.(*types.TypeParam); isTP {
+		// generic body: int(T) for an unsigned type parameter narrower than int keeps the value; every concrete
+		// instantiation is analysed separately with its real width
+		if tb, ok := to.Underlying().(*types.Basic); ok {
+			bits, _ := intBits(tb)
+			return bits == 64
+		}
 		return false
 	}
 	fb, ok1 := from.Underlying().(*types.Basic)
